@@ -39,6 +39,31 @@ def v2_overrides():
     return ov
 
 
+UNCOMMITTED_TAIL = [("P%d" % i, 0) for i in range(N_PAGES - 5, N_PAGES)]
+
+
+def v1a_pages(big=False):
+    p = dict(v1_pages(big))
+    for k in UNCOMMITTED_TAIL:
+        del p[k]
+    return p
+
+
+def backup_commit_event(events):
+    """1-based index of the line event of the commit inside the first
+    backup_db call (located through the source text)."""
+    import inspect
+
+    from wikitextprocessor import Wtp
+
+    src, first = inspect.getsourcelines(Wtp.backup_db)
+    lines = [first + i for i, l in enumerate(src)
+             if l.strip() == "self.db_conn.commit()"]
+    idx = [i for i, (fn, ln) in enumerate(events, 1)
+           if fn == "backup_db" and ln in lines]
+    return idx[0] if idx else 0
+
+
 def v3_overrides():
     ov = {}
     for i in range(1, N_PAGES, 3):
@@ -98,9 +123,17 @@ def life(d, variant, flow, kill_at, big, ready_path=None):
         json.dump(v2_overrides(), f)
     # phase 0 (not traced): the v1 database
     ctx = Wtp(db_path=db, quiet=True, quiet_output=True)
+    tail = set(UNCOMMITTED_TAIL) if variant == "uncommitted-tail" else set()
     for (t, ns), body in v1_pages(big).items():
-        ctx.add_page(t, ns, body, model="Scribunto" if ns == 828 else "wikitext")
+        if (t, ns) not in tail:
+            ctx.add_page(t, ns, body,
+                         model="Scribunto" if ns == 828 else "wikitext")
     ctx.db_conn.commit()
+    for (t, ns), body in v1_pages(big).items():
+        if (t, ns) in tail:
+            # written but not committed when the override flow starts: the
+            # backup's own commit makes them part of the backed-up content
+            ctx.add_page(t, ns, body)
     if variant == "checkpointed":
         ctx.close_db_conn()
         ctx = Wtp(db_path=db, quiet=True, quiet_output=True)
@@ -211,6 +244,8 @@ def classify(pages_list, big):
     pages = dict((tuple(k), v) for k, v in pages_list)
     if pages == v1_pages(big):
         return "v1"
+    if pages == v1a_pages(big):
+        return "v1a"
     if pages == v2_pages(big):
         return "v2"
     v1 = v1_pages(big)
@@ -233,7 +268,11 @@ def one_point(args):
         expected = "v1"
         if flow == "plain" and (k is None or k > commit_event):
             expected = "v2"
-        if flow == "double-backup" and (k is None or k > commit_event):
+        if variant == "uncommitted-tail":
+            # commit_event is here the backup's own commit: before it the
+            # tail pages were never committed
+            expected = "v1" if (k is None or k > commit_event) else "v1a"
+        elif flow == "double-backup" and (k is None or k > commit_event):
             # commit_event is here the event at which the SECOND backup
             # becomes the backup in force (its move into place)
             expected = "v2"
@@ -335,18 +374,35 @@ def run(run):
     procs = par.nprocs(run.tier)
     jobs = []
     plan = {}
-    for variant in ("checkpointed", "pending-wal"):
+    for variant in ("checkpointed", "pending-wal", "uncommitted-tail"):
         for flow in ("backup", "plain", "double-backup"):
+            if variant == "uncommitted-tail" and flow != "backup":
+                continue
             d = tempfile.mkdtemp(prefix="verif-c11-")
             try:
                 st, events, _ = par.fork_child(life, (d, variant, flow, None,
                                                       False), timeout=120)
             finally:
                 shutil.rmtree(d, ignore_errors=True)
+            if st == "timeout":
+                # the uninterrupted life-cycle itself never finishes (it
+                # takes about a second): nothing can be enumerated, and a
+                # backup / restore that hangs leaves no usable database
+                run.case(h((variant, flow, "dry")), True)
+                run.violation({"kind": "life-cycle-hangs", "variant": variant,
+                               "flow": flow},
+                              f"variant={variant} flow={flow}: the "
+                              "uninterrupted backup / overwrite / close / "
+                              "reopen script had not finished after 120 s",
+                              {"variant": variant, "flow": flow, "k": None,
+                               "j": None, "big": False})
+                continue
             if st != "ok":
                 raise RuntimeError(f"dry run failed: {st} {events!r}")
             n = len(events)
-            commit_event = (second_backup_event(events)
+            commit_event = (backup_commit_event(events)
+                            if variant == "uncommitted-tail"
+                            else second_backup_event(events)
                             if flow == "double-backup"
                             else commit_event_of(events))
             plan[(variant, flow)] = {"events": n, "commit_event": commit_event}
@@ -423,7 +479,8 @@ def run(run):
         "A scripted life-cycle in a child process on a database in a fresh "
         "directory: create + 52 pages v1 + commit (variant: closed and "
         "reopened so the WAL is checkpointed / committed frames still pending "
-        "in the WAL), then the real dumpparser.analyze_and_overwrite_pages "
+        "in the WAL / the last five pages written but not yet committed), then "
+        "the real dumpparser.analyze_and_overwrite_pages "
         "with skip_extract_dump=True (backup, then overwrite 27 pages to v2 + "
         "commit) or False (no backup), or twice in a row with backup (second "
         "backup of content v2, then overwrite to v3), close_db_conn, reopen "
@@ -443,7 +500,8 @@ def run(run):
         "taken before any v2 write), and the last committed map (v1 before / "
         "v2 after the overwrite's commit line) without backup; with two "
         "backups v1 until the second backup is moved into place and v2 from "
-        "then on. Non-trivial = "
+        "then on; with an uncommitted tail the committed part of v1 until the "
+        "backup's own commit and all of v1 after it. Non-trivial = "
         "kill points after the first traced line."
     )
     run.assumptions = [
@@ -465,7 +523,8 @@ def replay(run, case):
                                        timeout=120)
     finally:
         shutil.rmtree(d, ignore_errors=True)
-    ce = (second_backup_event(events) if flow == "double-backup"
+    ce = (backup_commit_event(events) if variant == "uncommitted-tail"
+          else second_backup_event(events) if flow == "double-backup"
           else commit_event_of(events))
     if isinstance(k, str):
         viols, _ = sigkill_point((variant, int(k.split("@")[1][:-2])))
